@@ -27,6 +27,7 @@ import (
 	"strconv"
 	"strings"
 	"sync"
+	"sync/atomic"
 	"testing"
 	"time"
 
@@ -363,8 +364,10 @@ func (s *c13Sched) settle(released *c13Entry, relGid int64, prod int) string {
 	deadline := c13SettleDeadline()
 	for round := 0; ; round++ {
 		c13Pause(s.wake, round)
-		st := c13Statuses()
 		s.mu.Lock()
+		// the goroutine snapshot is taken while the scheduler's flags cannot change: a snapshot older than the
+		// flags could show a waiter still blocked although the flag of the thread that woke it already says done
+		st := c13Statuses()
 		s.bind()
 		stable := true
 		if prod >= 0 {
@@ -1133,7 +1136,13 @@ type c13FSched struct {
 	connUe  map[*c13Conn]*UdpEndpoint
 	abort   bool
 	wake    chan struct{}
+	pending atomic.Int32 // instrumented threads inside or waiting for a critical section of mu
 }
+
+// tlock / tunlock: the scheduler lock as taken by instrumented threads; a thread blocked here has the same
+// goroutine state as one blocked on the pool's creation mutex, the counter tells them apart
+func (s *c13FSched) tlock()   { s.pending.Add(1); s.mu.Lock() }
+func (s *c13FSched) tunlock() { s.mu.Unlock(); s.pending.Add(-1) }
 
 func (s *c13FSched) hook(point string) {
 	code := 0
@@ -1150,15 +1159,15 @@ func (s *c13FSched) hook(point string) {
 		return
 	}
 	gid := c13Goid()
-	s.mu.Lock()
+	s.tlock()
 	i, ok := s.gidThr[gid]
 	if !ok || s.abort {
-		s.mu.Unlock()
+		s.tunlock()
 		return
 	}
 	e := &c13FEntry{thread: i, point: code, rel: make(chan struct{})}
 	s.parked[i] = e
-	s.mu.Unlock()
+	s.tunlock()
 	c13Signal(s.wake)
 	<-e.rel
 }
@@ -1187,8 +1196,8 @@ type c13FDialer struct {
 
 func (d *c13FDialer) DialContext(ctx context.Context, _ string, _ string) (netproxy.Conn, error) {
 	gid := c13Goid()
-	d.s.mu.Lock()
-	defer d.s.mu.Unlock()
+	d.s.tlock()
+	defer d.s.tunlock()
 	th, ok := d.s.gidThr[gid]
 	if ok && d.fail[th] {
 		d.s.events = append(d.s.events, []int{6, th})
@@ -1266,10 +1275,10 @@ func c13RunFCase(c c13FCase) (res c13FRes) {
 		s.started[i] = true
 		go func() {
 			gid := c13Goid()
-			s.mu.Lock()
+			s.tlock()
 			s.gidThr[gid] = i
 			s.thrGid[i] = gid
-			s.mu.Unlock()
+			s.tunlock()
 			opt := &UdpEndpointOptions{
 				Handler:        func(*UdpEndpoint, []byte, netip.AddrPort) error { return nil },
 				NatTimeout:     time.Hour,
@@ -1283,7 +1292,7 @@ func c13RunFCase(c c13FCase) (res c13FRes) {
 				},
 			}
 			ue, isNew, err := p.GetOrCreate(keys[t.K], opt)
-			s.mu.Lock()
+			s.tlock()
 			code := 0
 			if err != nil {
 				code = 4
@@ -1299,7 +1308,7 @@ func c13RunFCase(c c13FCase) (res c13FRes) {
 				s.events = append(s.events, []int{1, i, s.handleOf(ue)})
 			}
 			s.done[i] = true
-			s.mu.Unlock()
+			s.tunlock()
 			c13Signal(s.wake)
 		}()
 	}
@@ -1307,9 +1316,9 @@ func c13RunFCase(c c13FCase) (res c13FRes) {
 		deadline := c13SettleDeadline()
 		for round := 0; ; round++ {
 			c13Pause(s.wake, round)
-			st := c13Statuses()
 			s.mu.Lock()
-			stable := true
+			st := c13Statuses() // under the lock: see c13Sched.settle
+			stable := s.pending.Load() == 0
 			for i := range c.Threads {
 				if !s.started[i] || s.parked[i] != nil {
 					continue
@@ -1707,8 +1716,8 @@ func c13RunTFCase(c c13TFCase) (res c13TFRes) {
 		deadline := c13SettleDeadline()
 		for round := 0; ; round++ {
 			c13Pause(wake, round)
-			st := c13Statuses()
 			mu.Lock()
+			st := c13Statuses() // under the lock: see c13Sched.settle
 			stable := true
 			for i := range c.Threads {
 				if waiting[i] || exited[i] {
